@@ -249,18 +249,33 @@ Fixpoint absolutize (base : str) (args : list str) (prev : bool) : list str :=
       (if exact then a1 else absolutize_eq base path_opts a1) :: absolutize base rest exact
   end.
 
-(* fn resolve_command_base_dir: the current directory followed through the user's `-C` options *)
-Fixpoint resolve_command_base_dir (cur : str) (ga : list str) : option str :=
+(* fn resolve_command_base_dir: the directory the user's `-C` options lead to.  cwd = the process working
+   directory, None when std::env::current_dir() fails (the directory was removed); it is consulted only
+   while no absolute `-C` has been seen (base = None).  None = Err (missing path after -C, or the
+   working directory is needed and unavailable). *)
+Fixpoint resolve_base_from (cwd base : option str) (ga : list str) : option str :=
   match ga with
-  | [] => Some cur
+  | [] => match base with Some b => Some b | None => cwd end
   | f :: rest =>
       if str_eqb f gen_norm_flag then
         match rest with
         | [] => None                                  (* Missing path after -C *)
-        | p :: rest' => resolve_command_base_dir (path_join cur p) rest'
+        | p :: rest' =>
+            if path_is_relative p then
+              match base with
+              | Some cur => resolve_base_from cwd (Some (path_join cur p)) rest'
+              | None => match cwd with
+                        | Some d => resolve_base_from cwd (Some (path_join d p)) rest'
+                        | None => None                (* current_dir() failed *)
+                        end
+              end
+            else resolve_base_from cwd (Some p) rest'
         end
-      else resolve_command_base_dir cur rest
+      else resolve_base_from cwd base rest
   end.
+
+Definition resolve_command_base_dir (cwd : option str) (ga : list str) : option str :=
+  resolve_base_from cwd None ga.
 
 (* the `names` closure: some argument is the option itself or option=value *)
 Definition names_opt (o : str) (ga : list str) : bool :=
